@@ -493,7 +493,10 @@ func (g *G) Inbound(label string, o InboundOpts) Inbound {
 		b := &refcodec.Burn{Version: 0}
 		ps := g.pairsOf(src)
 		if len(ps) > 0 && !has(o.Break, "M5") {
-			b.BurnToken = append([]byte{}, Pick(g, label+"/pair", ps).Token...)
+			b.BurnToken = Pad32(Pick(g, label+"/pair", ps).Token) // (a genesis pair may hold a shorter token)
+			if len(b.BurnToken) != 32 {
+				b.BurnToken = b.BurnToken[len(b.BurnToken)-32:]
+			}
 		} else {
 			b.BurnToken = g.Bytes(label+"/tok", 32)
 			if _, ok := m.Pairs[pairKey(src, b.BurnToken)]; ok {
@@ -827,7 +830,7 @@ func (g *G) AdminOpOf(label, t string, by string) *Op {
 			p := Pick(g, label+"/ex", ps)
 			d, tok = p.Domain, append([]byte{}, p.Token...)
 			if k == 2 { // neighbour: one byte away
-				tok[g.Int(label+"/nb", 0, 31)] ^= 1
+				tok[g.Int(label+"/nb", 0, len(tok)-1)] ^= 1
 			} else if k == 3 { // same token, other domain
 				d = g.Domain(label + "/od")
 			}
@@ -928,6 +931,7 @@ type GenOpts struct {
 	UsedInGen    bool
 	UpperPairGen bool // link a pair through genesis with upper-case local token
 	MixedDenom   bool // in a fifth of the cases the minting denom has upper-case letters ("uUSDC")
+	ShortToken   bool // a third of the cases link (through genesis only) a pair whose remote token has 20 bytes
 	Decoys       bool // in a quarter of the cases the attester registry also holds odd entries (empty, truncated, non-hex)
 }
 
@@ -999,6 +1003,9 @@ func (g *G) drawGenesis(o GenOpts) *GenSpec {
 			}
 			gs.Pairs = append(gs.Pairs, PairSpec{Domain: d, Token: Hex(tok), Local: local})
 		}
+	}
+	if o.ShortToken && rapid.IntRange(0, 2).Draw(t, "shorttoken") == 0 {
+		gs.Pairs = append(gs.Pairs, PairSpec{Domain: gs.Messengers[0].Domain, Token: Hex(attest.Keccak([]byte("short-token"))[:20]), Local: denom})
 	}
 	if rapid.IntRange(0, 2).Draw(t, "haslimit") == 0 {
 		gs.Limits = append(gs.Limits, LimitSpec{Denom: strings.ToLower(denom), Amount: rapid.SampledFrom([]string{"1", "1000", "1000000", "18446744073709551616"}).Draw(t, "limit")})
